@@ -48,6 +48,13 @@ def Sorted : OptMap → Prop
   | [_] => True
   | (a, _) :: (b, vb) :: rest => a < b ∧ Sorted ((b, vb) :: rest)
 
+instance Sorted.instDecidable : (m : OptMap) → Decidable (Sorted m)
+  | [] => isTrue trivial
+  | [_] => isTrue trivial
+  | (a, _) :: (b, vb) :: rest =>
+    have := Sorted.instDecidable ((b, vb) :: rest)
+    inferInstanceAs (Decidable (a < b ∧ Sorted ((b, vb) :: rest)))
+
 /-- the flattening iterator of the coap-message views (`MessageOptionAdapter`) -/
 def flatten (m : OptMap) : List (Nat × Bytes) :=
   m.flatMap (fun kv => kv.2.map (fun v => (kv.1, v)))
